@@ -88,8 +88,8 @@ func VerifC11Limits() {
 	pg := c11Chain(d, early == 1)
 	maxFacts := vInt("maxFacts")
 	maxIter := vInt("maxIterations")
-	vAssume(vAnd(maxFacts >= 0, maxFacts <= 1000))
-	vAssume(vAnd(maxIter >= 0, maxIter <= 100))
+	vAssume(vAnd(maxFacts >= -2, maxFacts <= 1000))
+	vAssume(vAnd(maxIter >= -2, maxIter <= 100))
 	w := NewWorld(WithMaxFacts(maxFacts), WithMaxIterations(maxIter), WithMaxDuration(dur))
 	for _, f := range pg.facts {
 		w.AddFact(f)
@@ -194,8 +194,8 @@ func VerifC11General() {
 	pg := c05Program()
 	maxFacts := vInt("maxFacts")
 	maxIter := vInt("maxIterations")
-	vAssume(vAnd(maxFacts >= 0, maxFacts <= 1000))
-	vAssume(vAnd(maxIter >= 0, maxIter <= 100))
+	vAssume(vAnd(maxFacts >= -2, maxFacts <= 1000))
+	vAssume(vAnd(maxIter >= -2, maxIter <= 100))
 	w := NewWorld(WithMaxFacts(maxFacts), WithMaxIterations(maxIter), WithMaxDuration(dur))
 	for _, f := range pg.facts {
 		w.AddFact(f)
